@@ -563,6 +563,22 @@ theorem xcopyAt_spec {u : Univ} (hu : UWF u) {src dst : St} (hs : Inv u src) (hd
       obtain ⟨i1, _, i3, _⟩ := xcopy_spec hu hs fuel dst h c d' o hd ⟨e, he, ha, hc⟩ hx hcap
       exact ⟨i1, i3⟩
 
+theorem xcopyAt_frame {u : Univ} (hu : UWF u) {src dst : St} (hs : Inv u src) (hd : Inv u dst) {fuel h : Nat} {d' : St} {o : Nat}
+    (hx : xcopyAt u fuel src dst h = some (d', o)) (hcap : d'.b.a.capacity < 2 ^ 62) :
+    ∀ e ∈ dst.live, Unchanged dst d' e := by
+  unfold xcopyAt at hx
+  split at hx
+  · cases hx
+  · rename_i c hc
+    cases hf : findObj src h with
+    | none => rw [hf] at hc; cases hc
+    | some e =>
+      rw [hf] at hc
+      simp only [Option.bind_some] at hc
+      obtain ⟨he, ha, _⟩ := findObj_spec hf
+      obtain ⟨_, _, _, i4, _⟩ := xcopy_spec hu hs fuel dst h c d' o hd ⟨e, he, ha, hc⟩ hx hcap
+      exact i4
+
 theorem xcopyAt_cap (u : Univ) (fuel : Nat) (src dst : St) (h : Nat) :
     dst.b.a.capacity ≤ (((xcopyAt u fuel src dst h).map (·.1)).getD dst).b.a.capacity := by
   cases hx : xcopyAt u fuel src dst h with
